@@ -39,9 +39,10 @@ def go_replay(ctx, tables, vectors, tag, shards=SHARDS):
     summ = {"per_entry": {}}
     for s in summs:
         for key, val in s.items():
-            if key == "per_entry":
+            if key in ("per_entry", "micros"):
+                summ.setdefault(key, {})
                 for e, n in val.items():
-                    summ["per_entry"][e] = summ["per_entry"].get(e, 0) + n
+                    summ[key][e] = summ[key].get(e, 0) + n
             elif key != "kind":
                 summ[key] = summ.get(key, 0) + val
     return rows, summ
@@ -53,7 +54,7 @@ def check_rows(ctx, rows):
         k = r.get("kind")
         if k == "bad":
             ctx.disagreement(classify(r), r, "%s of %r under patterns %s: %s" % (
-                r["entry"], r["url"], json.dumps(r.get("patterns")), r["what"]))
+                r["entry"], r["url"], json.dumps(r.get("patterns") or []), r["what"]))
     soft = [r for r in rows if r.get("kind") in ("mismatch", "instrument", "panic")]
     return soft
 
@@ -77,10 +78,12 @@ def go_trace(ctx):
     return rows, verdict["bad"]
 
 
-def redo(ctx, line):
+def redo(ctx, line, url=None, tree=None):
     """Re-execute one trace step alone; returns the real paths it opened."""
     c = line["concrete"]
-    req = {"root": c["root"], "cwd": c["cwd"], "patterns": c["patterns"], "act": line["act"], "url": c["url"]}
+    req = {"root": c["root"], "cwd": c["cwd"], "patterns": c["patterns"] or [], "act": line["act"],
+           "url": c["url"] if url is None else url,
+           "dirs": (tree or {}).get("dirs") or [], "files": (tree or {}).get("files") or []}
     rout = ctx.path("c17_redo.ndjson")
     if os.path.exists(rout):
         os.remove(rout)
@@ -93,26 +96,36 @@ def redo(ctx, line):
 
 
 def judge_trace(ctx, trows, bad):
-    """Classify the lines TLC rejected; only reproduced 'unsafe' ones count."""
+    """Classify the lines TLC rejected.  Only 'unsafe' lines whose offending
+    open is seen again when the step is re-executed alone (fresh server, same
+    tree, same patterns, same URL) become disagreements."""
     soft = []
-    for b in bad[:20]:
+    for b in bad[:12]:
         line = trows[b["i"] - 1]
-        if b["kind"] != "unsafe":
+        if b["kind"] != "unsafe" or line["act"] not in ("add", "seturl", "refresh", "inject"):
             soft.append((b, line))
             continue
-        if line["act"] not in ("add", "seturl", "refresh", "inject"):
-            soft.append((b, line))
-            continue
-        again = redo(ctx, line) if line["act"] != "refresh" else None
-        suspicious = ["/" + "/".join(p) for p in line["opened"] + line["stored"]]
-        if again is not None and not (set(again["opened"]) & set(suspicious)):
+        suspicious = set("/" + "/".join(p) for p in line["opened"] + line["stored"])
+        # A refresh reads every configured list: find the one that does it.
+        urls = line["concrete"]["list_urls"] if line["act"] == "refresh" else [line["concrete"]["url"]]
+        again = None
+        for u in urls:
+            r = redo(ctx, line, u)
+            if set(r.get("opened") or []) & suspicious:
+                again = dict(r, url=u)
+                break
+        if again is None:
             soft.append(({"i": b["i"], "kind": "not-reproduced"}, line))
             continue
-        rec = {"trace_line": b["i"], "line": line, "redo": again}
+        reset = next(trows[j] for j in range(b["i"] - 1, -1, -1) if trows[j]["act"] == "reset")
+        rec = {"trace_line": b["i"], "line": line, "redo": again,
+               "tree": {k: reset["concrete"][k] for k in ("root", "dirs", "files")}}
         ctx.disagreement(classify(rec), rec, "trace line %d (%s of %r under patterns %s) opened/stored %s: "
                          "rejected by TraceSafePath as unsafe" % (
-                             b["i"], line["act"], line["concrete"]["url"], json.dumps(line["concrete"]["patterns"]),
-                             suspicious))
+                             b["i"], line["act"], again["url"], json.dumps(line["concrete"]["patterns"]),
+                             sorted(suspicious)))
+    if len(bad) > 12:
+        ctx.notes.append("%d further rejected trace lines not examined" % (len(bad) - 12))
     return soft
 
 
@@ -169,31 +182,37 @@ def run(ctx):
     sel = prepare(ctx, vectors, rng)
     ctx.log("replaying %d of %d vectors (%d scenarios)" % (len(sel), len(vectors), sum(len(v["entries"]) for v in sel)))
     rows, summ = go_replay(ctx, tables, sel, "a")
+    # Problems of the model or the harness never count as violations, and
+    # never hide a reproduced one: they are collected and make the run
+    # inconclusive only if no violation was reproduced.
+    problems = []
     soft = check_rows(ctx, rows)
     flaky = [r for r in rows if r.get("kind") == "flaky"]
     skipped = [r for r in rows if r.get("kind") == "skip"]
     if soft:
         r = soft[0]
-        raise vlib.Inconclusive("harness/model problem (%s) in %d scenarios, first: %s of %r: %s" % (
+        problems.append("harness/model problem (%s) in %d scenarios, first: %s of %r: %s" % (
             r["kind"], len(soft), r.get("entry"), r.get("url"), r.get("what")))
     if skipped:
-        raise vlib.Inconclusive("%d scenarios could not be run, first: %s" % (len(skipped), skipped[0]))
+        problems.append("%d scenarios could not be run, first: %s" % (len(skipped), skipped[0]))
     if summ["positive"] < 20 or summ["accepted"] < 20:
-        raise vlib.Inconclusive("vacuous: only %d steps opened a permitted file, %d accepted" % (
+        problems.append("vacuous: only %d steps opened a permitted file, %d accepted" % (
             summ["positive"], summ["accepted"]))
     # Direction B.
     trows, tbad = go_trace(ctx)
     tsoft = judge_trace(ctx, trows, tbad)
     if tsoft:
         b, line = tsoft[0]
-        raise vlib.Inconclusive("trace: %d lines rejected for model/harness reasons, first: line %s kind %s: %s" % (
+        problems.append("trace: %d lines rejected for model/harness reasons, first: line %s kind %s: %s" % (
             len(tsoft), b["i"], b["kind"], json.dumps(line)[:1500]))
     tsteps = [r for r in trows if r["act"] != "reset"]
     topened = sum(1 for r in tsteps if r["opened"])
     if topened < 10:
-        raise vlib.Inconclusive("vacuous: only %d trace steps opened a file" % topened)
+        problems.append("vacuous: only %d trace steps opened a file" % topened)
+    if problems and not ctx.violations:
+        raise vlib.Inconclusive("; ".join(problems))
     nt = sum(1 for v in sel if v["add"] or v["refresh"])
-    samples = [sel[0], sel[len(sel) // 2], sel[-1], {"trace_line": next(r for r in tsteps if r["opened"])}]
+    samples = [sel[0], sel[len(sel) // 2], sel[-1], {"trace_line": next((r for r in tsteps if r["opened"]), None)}]
     cov = {
         "traces_validated_against_impl": summ["n"] + sum(1 for r in trows if r["act"] == "reset"),
         "trace_epochs": sum(1 for r in trows if r["act"] == "reset"), "trace_lines": len(trows),
@@ -205,9 +224,9 @@ def run(ctx):
                 "up to three entry points (add_url, set_url, configuration file + refresh); non-trivial = the spec "
                 "permits opening a file for it",
         "steps_that_opened_a_permitted_file": summ["positive"], "requests_accepted": summ["accepted"],
-        "per_entry": summ["per_entry"], "flaky": len(flaky), "panics": summ["panics"],
+        "per_entry": summ["per_entry"], "micros_per_entry": summ.get("micros"), "flaky": len(flaky), "panics": summ["panics"],
         "mc_action_counts": {a: counts[a][0] for a in ACTIONS},
-        "exhaustive": not ctx.quick, "samples": samples,
+        "exhaustive": not ctx.quick, "samples": samples, "problems": problems,
     }
     return ctx.finish("model_checking", cov, assumptions=[
         "TLC; conc()/abs() of zz_verif_c17_test.go (rendering of locations and globs, tree layout)",
@@ -218,6 +237,16 @@ def run(ctx):
 
 def replay(ctx, path):
     rec = json.load(open(path))["record"]
+    if "line" in rec:
+        # A trace step: rebuild the tree, re-execute the step alone.
+        line = rec["line"]
+        suspicious = set("/" + "/".join(p) for p in line["opened"] + line["stored"])
+        r = redo(ctx, line, rec["redo"]["url"], rec["tree"])
+        hit = sorted(set(r.get("opened") or []) & suspicious)
+        print(json.dumps({"expected": "no open outside the patterns %s" % json.dumps(line["concrete"]["patterns"]),
+                          "url": rec["redo"]["url"], "observed_opened": r.get("opened"),
+                          "still_outside": hit}, indent=1))
+        return 1 if hit else 0
     vec = dict(rec["vec"])
     vec["entries"] = [rec["entry"]]
     gen = ctx.tlc("SafePath", "SafePath.gen.cfg", workers=6, timeout=900)
